@@ -356,6 +356,36 @@ static void fanin(int m, bool avoidToo) {
     } while (mcx::odo_next(idx, 12));
 }
 
+
+// ---- constraintsRemovingRedundantEqualities (documented helper: "returns a modified set of constraints with all redundant equality constraints removed";
+// VPSC shows redundant equalities as unsatisfiable) -- every sequence of up to `depth` constraints over n variables; reference: potentials over the graph of
+// the equalities kept so far.  Clauses: the result is the input with exactly the implied equalities dropped (same objects, same order); and, on feasible
+// equality systems, IncSolver on the filtered list flags nothing.
+static void redundant_equalities(int n, int depth) {
+    vector<SepC> alpha; for (int l = 0; l < n; l++) for (int r = 0; r < n; r++) if (l != r) { for (double g : {0.0, 1.0, 2.0}) alpha.push_back({l, r, g, true}); }
+    alpha.push_back({0, 1, 1, false}); alpha.push_back({1, 0, 0, false});
+    ctx.phase(mcx::fmt("constraintsRemovingRedundantEqualities: every sequence of <=%d constraints over %d variables (%zu-letter alphabet)", depth, n, alpha.size()));
+    for (int d = 1; d <= depth && !ctx.stopped(); d++) { vector<int> idx(d, 0);
+        do { if (!ctx.next()) continue;
+            vpsc::Variables vs; for (int i = 0; i < n; i++) vs.push_back(new vpsc::Variable(i, i * 1.5, 1, 1)); vpsc::Constraints cs; string desc = "constraintsRemovingRedundantEqualities n=" + to_string(n) + ":";
+            for (int k : idx) { cs.push_back(new vpsc::Constraint(vs[alpha[k].l], vs[alpha[k].r], alpha[k].gap, alpha[k].eq)); desc += " " + cstr(alpha[k]); }
+            ctx.count("states"); ctx.count("transitions"); ctx.sample(desc, 1);
+            // reference
+            vector<int> comp(n); vector<double> pot(n, 0); for (int i = 0; i < n; i++) comp[i] = i; vpsc::Constraints want; bool consistent = true; int dropped = 0;
+            for (size_t q = 0; q < cs.size(); q++) { const SepC &c = alpha[idx[q]];
+                if (!c.eq) { want.push_back(cs[q]); continue; }
+                if (comp[c.l] == comp[c.r]) { if (fabs(pot[c.l] + c.gap - pot[c.r]) < 1e-9) { dropped++; continue; } consistent = false; want.push_back(cs[q]); continue; }
+                double off = pot[c.l] + c.gap - pot[c.r]; int from = comp[c.r], to = comp[c.l]; for (int i = 0; i < n; i++) if (comp[i] == from) { comp[i] = to; pot[i] += off; } want.push_back(cs[q]); }
+            if (dropped) ctx.count("nontrivial");
+            try { vpsc::Constraints got = vpsc::constraintsRemovingRedundantEqualities(vs, cs);
+                if (got != want) ctx.violation("redundant_equalities_filter_wrong", {}, desc, mcx::fmt("kept %zu of %zu, expected %zu", got.size(), cs.size(), want.size()));
+                else if (consistent) { bool onlyEq = true; for (int k : idx) onlyEq &= alpha[k].eq; if (onlyEq) { vpsc::IncSolver sv(vs, got); sv.solve(); for (auto c : got) if (c->unsatisfiable) { ctx.violation("flag_on_feasible", {}, desc + " (after removing the redundant equalities)"); break; } } }
+            } catch (vpsc::CriticalFailure &f) { ctx.library_abort(f.what(), desc); } catch (...) { ctx.violation("inc_throw", {}, desc, "exception"); }
+            for (auto c : cs) delete c; for (auto v : vs) delete v;
+            ctx.done_case();
+        } while (mcx::odo_next(idx, (int)alpha.size()) && !ctx.stopped()); }
+}
+
 // ---- part B: histories on one live IncSolver --------------------------------------
 struct Op { int kind; int a; double v; SepC c; };   // 0 add c, 1 desired[a]:=v, 2 solve, 3 satisfy
 static string op_str(const Op &p) {
@@ -443,6 +473,7 @@ int main(int argc, char **argv) {
     resolves<NSvpsc>(3, 3, {-1, 0, 2}, 1); resolves<NSvpsc>(4, 4, {1}, 2); resolves<NSavoid>(3, 3, {0, 2}, 2);
     addresolves<NSvpsc>(3, 2, false); addresolves<NSavoid>(3, 2, false);
     families<NSvpsc>(T); families<NSavoid>(T);
+    if (P1) { redundant_equalities(3, 3); redundant_equalities(4, 2); if (T) { redundant_equalities(3, 4); redundant_equalities(4, 3); } }
     fanin(3, true); fanin(4, false); if (T) { fanin(4, true); fanin(5, false); }
     histories<NSvpsc>(3, 3, 0, false);
     histories<NSvpsc>(3, 4, 0, false);
